@@ -72,7 +72,7 @@ func init() {
 			if tier == "thorough" {
 				return 800000
 			}
-			return 12000
+			return 40000
 		},
 		Budget: func(tier string) time.Duration {
 			if tier == "thorough" {
@@ -151,7 +151,7 @@ func init() {
 			if tier == "thorough" {
 				return 1500000
 			}
-			return 25000
+			return 60000
 		},
 		Budget: func(tier string) time.Duration {
 			if tier == "thorough" {
